@@ -16,6 +16,26 @@ fn sym_ascii<const N: usize>(buf: &[u8; N], len: usize) -> &str {
 // regex kinds, host anchor, match-case: syntactically off (their matcher arms are regex / str::contains)
 const KIND: u32 = (1 << 18) | (1 << 21) | (1 << 24) | (1 << 28) | (1 << 14);
 
+fn one(c: u8) -> String {
+    let mut s = String::new();
+    s.push(c as char);
+    s
+}
+/// `empty`: matches every URL. `anyof`: an already fused member whose two alternatives are the first and the
+/// second byte of `pat` (needs |pat| == 2).
+fn mk_kind(mask: NetworkFilterMask, pat: &str, empty: bool, anyof: bool, tag: bool, id: u64) -> NetworkFilter {
+    let part = if empty {
+        FilterPart::Empty
+    } else if anyof {
+        let b = pat.as_bytes();
+        FilterPart::AnyOf(vec![one(b[0]), one(b[1])])
+    } else {
+        FilterPart::Simple(String::from(pat))
+    };
+    let mut f = mk(mask, pat, true, tag, id);
+    f.filter = part;
+    f
+}
 fn mk(mask: NetworkFilterMask, pat: &str, empty: bool, tag: bool, id: u64) -> NetworkFilter {
     NetworkFilter {
         mask,
@@ -39,7 +59,7 @@ fn active(f: &NetworkFilter, tag_a_enabled: bool) -> bool {
 /// two rules the grouping key allows to fuse (same mask — `format!("{:b}:{:?}", mask, is_complete_regex)` is
 /// not executed), real select + fusion + per-rule matcher: the fused rule is active-and-matching iff some
 /// member is. `e1`/`e2`: that member has an empty pattern (matches every URL).
-fn fuse_kernel<const PN: usize, const UN: usize>(e1: bool, e2: bool) {
+fn fuse_kernel<const PN: usize, const UN: usize>(e1: bool, e2: bool, a1: bool) {
     let mut dr = crate::verif_shim::Draw::new();
     let b1: [u8; PN] = dr.bytes::<PN>();
     let l1: usize = dr.usize();
@@ -56,7 +76,10 @@ fn fuse_kernel<const PN: usize, const UN: usize>(e1: bool, e2: bool) {
     kani::assume(l1 >= 1 && l2 >= 1);
     let mask = NetworkFilterMask::from_bits_retain(dr.u32() & !KIND);
     let (t1, t2): (bool, bool) = (dr.bool(), dr.bool());
-    let f1 = mk(mask, p1, e1, t1, 1);
+    if a1 {
+        kani::assume(l1 == 2);
+    }
+    let f1 = mk_kind(mask, p1, e1, a1, t1, 1);
     let f2 = mk(mask, p2, e2, t2, 2);
     let rt = if dr.bool() { crate::request::RequestType::Script } else { crate::request::RequestType::Document };
     let req = crate::request::Request {
@@ -122,7 +145,7 @@ fn c05_select() {
 }
 
 macro_rules! fuse_harness {
-    ($name:ident, $unw:literal, $p:literal, $u:literal, $e1:literal, $e2:literal) => {
+    ($name:ident, $unw:literal, $p:literal, $u:literal, $e1:literal, $e2:literal, $a1:literal) => {
         #[kani::proof]
         #[kani::unwind($unw)]
         #[kani::stub(regex::Regex::new, crate::verif_shim::stub_regex_new)]
@@ -130,11 +153,12 @@ macro_rules! fuse_harness {
         #[kani::stub(crate::regex_manager::RegexManager::matches, crate::verif_shim::stub_rm_matches)]
         #[kani::stub(std::time::Instant::now, crate::verif_shim::stub_instant_now)]
         fn $name() {
-            fuse_kernel::<$p, $u>($e1, $e2);
+            fuse_kernel::<$p, $u>($e1, $e2, $a1);
         }
     };
 }
-fuse_harness!(c05_fuse, 6, 2, 3, false, false);
-fuse_harness!(c05_fuse_e1, 6, 2, 3, true, false);
-fuse_harness!(c05_fuse_e2, 6, 2, 3, false, true);
-fuse_harness!(c05_fuse_t, 7, 2, 4, false, false);
+fuse_harness!(c05_fuse, 6, 2, 3, false, false, false);
+fuse_harness!(c05_fuse_e1, 6, 2, 3, true, false, false);
+fuse_harness!(c05_fuse_e2, 6, 2, 3, false, true, false);
+fuse_harness!(c05_fuse_anyof, 6, 2, 3, false, false, true);
+fuse_harness!(c05_fuse_t, 7, 2, 4, false, false, false);
